@@ -582,9 +582,46 @@ def check(ctx, R):
         else:
             R.ob("C10.rec", name, "cycle(%d)" % len(comp), False, "call-graph cycle in the cone: %s" % sorted(comp)[:6])
     R.floor("C10.rec", "cycles examined", len(sccs), 1)
+    rule_total(R, ctx)
     return {"cone_functions": len(paths), "cone_instances": mono["n_instances"], "cone_local_instances": mono["n_local"],
             "sites_by_class": dict(stats), "layers": {"L1": sum(1 for v in layers.values() if v == "L1"), "L2": sum(1 for v in layers.values() if v == "L2")},
             "unresolved_calls_in_cone": mono["unresolved"][:60], "virtual_calls": mono["virtual"], "truncated": mono["truncated"]}
+
+
+def rule_total(R, ctx, rid="C10.total"):
+    """re-encoding a decoded value to the v1 JSON columns is total: Any::to_json unwraps what `<Any as Serialize>::serialize`
+    returns, so that impl must not originate an error of its own."""
+    Y = ctx.yrs
+    R.rule(rid, "R-PANIC infallible callee behind an unwrap: Any::to_json (EncoderV1::write_json: every embed, format value and "
+                "JSON content of a re-encoded update) unwraps the result of `<Any as Serialize>::serialize` into an in-memory "
+                "buffer; that impl returns only what the serializer's own calls return — it constructs no Err and calls no "
+                "ser::Error::custom — so a value that decoded (v2 carries NaN/±Infinity) can always be written again")
+    tj = Y.fn("yrs::any::Any::to_json")
+    v = FnView(tj)
+    un = [c for c in tj.calls_to("re:^std::result::Result::(unwrap|expect)$")]
+    sers = [c for c in tj.calls() if re.search(r"Serialize>::serialize$", F.strip_generics(c.name))]
+    R.floor(rid, "serialize call in Any::to_json", len(sers), 1)
+    for c, site in ordinal_sites(un):
+        t = simp_deep(v.arg(c, 0))
+        R.ob(rid, tj, site, t[0] == "call" and re.search(r"Serialize>::serialize$", F.strip_generics(t[1])) is not None,
+             "unwraps %s" % sshow(t), c.loc())
+    impls = Y.find(r"^<yrs::any::Any as .*Serialize>::serialize$")
+    R.floor(rid, "Serialize impl of Any", len(impls), 1)
+    for f0 in impls:
+        for f in Y.with_closures(f0):
+            R.touch(f)
+            bad = []
+            for c in f.calls():
+                nm = F.strip_generics(c.name)
+                if re.search(r"ser::Error::custom$|::Error::custom$", nm):
+                    bad.append("%s at %s" % (nm, c.loc()))
+            for i, j, st in f.stmts():
+                ag = st["rv"].get("agg") if isinstance(st["rv"], dict) else None
+                if ag and str(ag.get("adt", "")).endswith("result::Result") and ag.get("variant") == "Err":
+                    bad.append("constructs Err at line %s" % st.get("line"))
+            R.ob(rid, f, "originates-no-error", not bad,
+                 "every error this impl returns comes from a serializer call" if not bad else
+                 "the impl originates an error of its own (%s); Any::to_json unwraps it" % "; ".join(bad))
 
 
 def _fed_from_parse_layer(Y, s, paths, layers):
